@@ -91,7 +91,7 @@ SELECTOR_TEXTS = ['b', 'b>e', '$$', 'b,$$', 'b,,e', '', 'q|b', 'b{', 'b e[', 'p|
 DECL_TEXTS = ['z:w', 'z:w;u:v', '$$', 'z:w;$$:1', 'z:$$', 'z', 'z:w!x', '', 'z:w}', 'z:w;;u:v', '/*c*/z:w']
 MEDIA_RULE_TEXTS = ['@media tv{e{z:w}}', '@media tv{', '@media 3d{e{z:w}}', '@media tv, 3d{e{z:w}}', '@media tv{@import "q";}', '@media tv{e{z:w}$${z:w}}',
                     '@media tv{e{z:w}}}', '@media{e{z:w}}', 'e{z:w}', '', '@media tv{@charset "x";e{}}', '@media tv{q|e{z:w}}', '@media tv{e{z:w}} e{}']
-MEDIA_TEXTS = ['tv', 'tv, print', '3d', 'tv, 3d', 'tv,,print', '', 'all, tv', 'tv and', 'tv and (min-width:1px)', 'tv and (', 'not tv']
+MEDIA_TEXTS = ['all', 'ALL', '/*c*/ all', 'tv', 'tv, print', '3d', 'tv, 3d', 'tv,,print', '', 'all, tv', 'tv and', 'tv and (min-width:1px)', 'tv and (', 'not tv']
 IMPORT_TEXTS = ['@import "y.css";', '@import url(y.css) tv;', '@import;', '@import "y.css" 3d;', '@import "y.css" tv', '@import "y.css" tv; a{}', 'a{}', '', '@import "y.css" tv, 3d;',
                 '@import "y.css" tv "n" x;']
 NAMESPACE_TEXTS = ['@namespace p "u";', '@namespace q "u";', '@namespace p "v";', '@namespace q "v";', '@namespace;', '@namespace p;', '@namespace p "u" x;', 'a{}', '', '@namespace "u";']
@@ -217,9 +217,9 @@ def observe(s):
             if r.type == R.STYLE_RULE:
                 row += [tuple(x.selectorText for x in r.selectorList), _props(r.style), r.selectorList.parentRule is r, r.style.parentRule is r]
             elif r.type == R.MEDIA_RULE:
-                row += [r.media.mediaText, tuple((x.typeString, x.cssText, x.parentRule is r) for x in r.cssRules), r.media.parentRule is r, r.name]
+                row += [_media(r.media), tuple((x.typeString, x.cssText, x.parentRule is r) for x in r.cssRules), r.media.parentRule is r, r.name]
             elif r.type == R.IMPORT_RULE:
-                row += [r.href, r.media.mediaText, r.name, r.media.parentRule is r]
+                row += [r.href, _media(r.media), r.name, r.media.parentRule is r]
             elif r.type == R.NAMESPACE_RULE:
                 row += [r.prefix, r.namespaceURI]
             elif r.type == R.PAGE_RULE:
@@ -234,6 +234,10 @@ def observe(s):
         return tuple(out)
     finally:
         cssutils.ser.prefs.useDefaults()
+
+
+def _media(ml):
+    return (ml.mediaText, ml.length, tuple(ml[i].mediaText for i in range(ml.length)), tuple(ml.item(i) for i in range(ml.length + 1)))
 
 
 def _props(st):
